@@ -23,16 +23,25 @@ LEVEL_TEXT = ("Proof (F/M): for every sequence of keyless writer Insert/Delete/U
               "(GROUP BY + COUNT, COUNT(*), index lookup) and merges of independently edited copies.")
 LEVEL_NOTE = ("Trusted: Coq kernel, Go harness (SQL script runner), Python glue. Section hypothesis: the row hash (xxh3-128 of the value fields) is injective on "
               "the rows of a history. Modelled, not verified: the SQL engine's expansion of a statement into per-copy writer calls (derived from the "
-              "previously observed state), secondary index maintenance (observed through a lookup), LIMIT forms of DELETE/UPDATE (not generated: the "
-              "engine chooses which copies a LIMIT hits only up to multiplicity, which the multiset view covers but the generator does not exercise). "
-              "Note: dolt records a conflict also when both sides change a row's multiplicity in the SAME way (code comment: 'For keyless tables, this "
-              "counts as a conflict'); the model and oracle mirror that rule.")
-THEOREMS = ["keyless_refines_multiset", "positive_run", "keyless_merge_spec", "merge_card_deltas", "merge_card_conflict_iff", "kmerge_get", "kmerge_conflict_iff"]
+              "previously observed state), secondary index maintenance (observed through a lookup), DELETE ... LIMIT n (the engine chooses which matching copies go; the oracle demands exactly min(n, matching) copies "
+              "removed from matching rows only, and the writer calls are read off the observed change); UPDATE ... LIMIT is not generated. "
+              "Equal changes: dolt records a conflict also when both sides change a row's multiplicity in the SAME way (MaybeShortCircuit: 'For keyless "
+              "tables, this counts as a conflict'; computeProllyTreePatches records convergent keyless edits as conflicts). Decision: the property text "
+              "permits this. It says a conflict is reported WHEN the changes differ (a sufficient condition; C29's text, by contrast, says 'exactly when'), "
+              "and a reported conflict is not a merge result: nothing is applied or dropped silently, dolt_conflicts_t carries base/our/their cardinality "
+              "(compared by the oracle) and the table keeps ours until resolved. For a multiset an equal change is genuinely ambiguous between "
+              "accumulating (base + both deltas: 3 copies when both add one) and converging (2 copies); refusing to guess does not contradict "
+              "'applies each side's change in multiplicity', which the oracle enforces strictly wherever no conflict is reported (result = base + both "
+              "deltas, merge_card_deltas) together with 'different changes => conflict' and exact conflict cardinalities. A silent pick in either "
+              "direction is a violation. oracle_on_model: proved for the merge conjuncts (merge_oracle_on_model); the statement-by-statement "
+              "conjunct is not yet proved (oracle_on_model_partial says what is missing).")
+THEOREMS = ["keyless_refines_multiset", "positive_run", "keyless_merge_spec", "merge_card_deltas", "merge_card_conflict_iff", "kmerge_get", "kmerge_conflict_iff",
+            "kmerge_conflict_entry", "merge_oracle_on_model", "oracle_on_model_partial"]
 RULE = ("keyless tables with 2-3 nullable int/varchar columns over tiny value domains (duplicates are the norm), optional secondary index on the first "
-        "column; 2-9 statements (INSERT of 1-3 copies, DELETE/UPDATE with a null-safe equality predicate) observed one by one; then two branches of 0-4 "
+        "column; 2-9 statements (INSERT of 1-3 copies, DELETE/UPDATE with a null-safe equality predicate, DELETE ... LIMIT n) observed one by one; then two branches of 0-4 "
         "statements each, merged in both directions; non-trivial = some row reaches multiplicity >= 2; distinct by script text")
-ASSUMPTIONS = ["predicates are null-safe equalities on one column; UPDATE assigns one column a constant; no LIMIT"]
-REQUIRED_TAGS = ["duplicates", "delete-many", "update-merge-rows", "with-index", "merge-conflict", "merge-clean", "equal-change-conflict", "one-sided-delta", "card-to-zero"]
+ASSUMPTIONS = ["predicates are null-safe equalities on one column; UPDATE assigns one column a constant; LIMIT only on DELETE"]
+REQUIRED_TAGS = ["duplicates", "delete-many", "delete-limit", "delete-limit-partial", "update-merge-rows", "with-index", "merge-conflict", "merge-clean", "equal-change-conflict", "one-sided-delta", "card-to-zero"]
 
 INTS = [0, 1, 2]
 STRS = ["a", "b"]
@@ -53,8 +62,11 @@ def gen_stmt(rng, cols):
         return {"k": "ins", "sql": "insert into t values %s" % ", ".join([vals] * n), "row": vals, "n": n}
     ci = rng.randrange(len(cols))
     v = lit(cols[ci][1], rng)
-    if x < 0.72:
+    if x < 0.66:
         return {"k": "del", "sql": "delete from t where %s <=> %s" % (names[ci], v), "ci": ci, "v": v}
+    if x < 0.78:
+        n = rng.choice([1, 1, 2, 3])
+        return {"k": "dell", "sql": "delete from t where %s <=> %s limit %d" % (names[ci], v, n), "ci": ci, "v": v, "n": n}
     cj = rng.randrange(len(cols))
     w = lit(cols[cj][1], rng)
     return {"k": "upd", "sql": "update t set %s = %s where %s <=> %s" % (names[cj], w, names[ci], v), "ci": ci, "v": v, "cj": cj, "w": w}
@@ -168,6 +180,11 @@ def parse(case, out):
             if st["k"] == "del":
                 stmt = ("del", st["ci"], v)
                 ops = [("Del", r) for r, c in match for _ in range(c)]
+            elif st["k"] == "dell":
+                # which copies a LIMIT hits is the engine's choice: the writer calls are read off the observed change
+                stmt = ("dell", st["ci"], v, st["n"])
+                nd = {tuple(r): c for r, c in new}
+                ops = [("Del", r) for r, c in prev for _ in range(max(0, c - nd.get(tuple(r), 0)))]
             else:
                 w = litval(st["w"])
                 stmt = ("upd", st["ci"], v, st["cj"], w)
@@ -220,6 +237,8 @@ def cq_stmt(s):
         return "(SIns %s %d)" % (cq_row(s[1]), s[2])
     if s[0] == "del":
         return "(SDel %d %s)" % (s[1], g.cq_cell(s[2]))
+    if s[0] == "dell":
+        return "(SDelL %d %s %d)" % (s[1], g.cq_cell(s[2]), s[3])
     return "(SUpd %d %s %d %s)" % (s[1], g.cq_cell(s[2]), s[3], g.cq_cell(s[4]))
 
 
@@ -262,6 +281,11 @@ def classify(case, out):
             t.append("delete-many")
         if s["stmt"][0] == "del" and s["ops"]:
             t.append("card-to-zero")
+        if s["stmt"][0] == "dell" and s["ops"]:
+            t.append("delete-limit")
+            matching = sum(c for r, c in prev if r[s["stmt"][1]] == s["stmt"][2])
+            if matching > s["stmt"][3]:
+                t.append("delete-limit-partial")
         if s["stmt"][0] == "upd" and s["ops"]:
             targets = {tuple(o[2]) for o in s["ops"]}
             if any(tuple(r) in targets for r, _ in prev) or len(s["ops"]) > len(targets):
